@@ -672,12 +672,14 @@ SequenceOfLabelsGetSize(const uint8_t *buf, size_t buf_size, size_t *name_len_re
 	cur_pos = buf;
 	max_pos = (cur_pos + buf_size);
 	for (;;) {// перебираем все куски текста
+		if (cur_pos >= max_pos)
+			return (EBADMSG); /* Out of buf range: no end of name. */
 		label = (*cur_pos);
 		cur_pos ++; // now it points to data
 		switch((label & SEQ_LABEL_CTRL_MASK)){
 		case SEQ_LABEL_CTRL_LEN:		//00------ // RFC 1035 4.1.4: // 6 bit - label len, see SEQ_LABEL_DATA_MASK
 			label &= SEQ_LABEL_DATA_MASK;// now it contain len
-			if ((cur_pos + label) > max_pos)
+			if (label > (size_t)(max_pos - cur_pos))
 				return (EBADMSG); /* Out of buf range. */
 			if (0 == label) { // null label = end of name, ALL DONE!!!
 				(*name_len_ret) = (size_t)(cur_pos - buf);
@@ -690,6 +692,8 @@ SequenceOfLabelsGetSize(const uint8_t *buf, size_t buf_size, size_t *name_len_re
 			(*name_len_ret) = (size_t)(cur_pos - buf);
 			return (0);// XXX if its wrong, then error will be generated in other place
 		case SEQ_LABEL_CTRL_COMPRESSED: //11------ // RFC 1035 4.1.4: 14 bits = offset from the start of the message
+			if (cur_pos >= max_pos)
+				return (EBADMSG); /* Out of buf range: no low offset byte. */
 			(*name_len_ret) = (size_t)((cur_pos - buf) + 1); // 1 = 1 offset byte (low 8 bits of offset)
 			return (0);
 		}
@@ -724,10 +728,11 @@ SequenceOfLabelsToDomainName(const uint8_t *buf, size_t buf_size, uint8_t *name,
 		label &= SEQ_LABEL_DATA_MASK;// now it contain len
 		cur_pos ++; // now it points to data
 
-		if ((cur_pos + label) > max_pos)
+		/* Label data and next label len must be in buf. */
+		if (0 != label && label >= (size_t)(max_pos - cur_pos))
 			return (EBADMSG); /* Out of buf range. */
 		if (0 == label) { // null label = end of name, ALL DONE!!!
-			if (0 != (cur_pos - buf)) { // clear last dot
+			if (1 != (cur_pos - buf)) { // clear last dot
 				name --;
 			}
 			(*name) = 0; // set zero at the end
@@ -963,17 +968,22 @@ dns_msg_sequence_of_labels_get_name_len(dns_hdr_p hdr, size_t msg_size,
 		return (EBADMSG);
 
 	cur_pos = (((uint8_t*)hdr) + offset);
-	max_pos = (cur_pos + msg_size); // XXX check this!
+	max_pos = (((uint8_t*)hdr) + msg_size);
 	name_len = 0;
 	for (jumps = 0; jumps < DNS_MAX_NAME_CYCLES;) {// перебираем все куски текста
+		if (cur_pos >= max_pos)
+			return (EBADMSG); /* Out of buf range: no end of name. */
 		label = (*((uint8_t*)cur_pos));
 		if ((label & SEQ_LABEL_CTRL_MASK) == SEQ_LABEL_CTRL_COMPRESSED) {
 			// SEQ_LABEL_CTRL_COMPRESSED означает что указанно смещение а не длинна
+			if (sizeof(uint16_t) > (size_t)(max_pos - cur_pos))
+				return (EBADMSG); /* Out of buf range: no low offset byte. */
 			memcpy(&tmu16, cur_pos, sizeof(uint16_t));
 			offset = (ntohs(tmu16) & SEQ_LABEL_COMPRESSED_DATA_MASK);
+			if (msg_size <= offset || sizeof(dns_hdr_t) > offset)
+				return (EBADMSG);// bad pointer
 			new_pos = (((uint8_t*)hdr) + offset);
-			if (msg_size < offset || sizeof(dns_hdr_t) > offset ||
-			    cur_pos == new_pos)
+			if (cur_pos == new_pos)
 				return (EBADMSG);// bad pointer
 			// pointer OK: in buf range, not pointed to self
 			cur_pos = new_pos;
@@ -985,7 +995,7 @@ dns_msg_sequence_of_labels_get_name_len(dns_hdr_p hdr, size_t msg_size,
 		label &= SEQ_LABEL_DATA_MASK;// now it contain len
 		cur_pos ++; // now it points to data
 
-		if ((cur_pos + label) > max_pos)
+		if (label > (size_t)(max_pos - cur_pos))
 			return (EBADMSG); /* Out of buf range. */
 		if (0 == label) { // null label = end of name, ALL DONE!!!
 			if (0 != name_len) { // clear last dot
@@ -1016,17 +1026,22 @@ dns_msg_sequence_of_labels2name(dns_hdr_p hdr, size_t msg_size, size_t offset,
 		return (EBADMSG);
 
 	cur_pos = (((uint8_t*)hdr) + offset);
-	max_pos = (cur_pos + msg_size); // XXX check this!
+	max_pos = (((uint8_t*)hdr) + msg_size);
 	name_len = 0;
 	for (jumps = 0; jumps < DNS_MAX_NAME_CYCLES;) {// перебираем все куски текста
+		if (cur_pos >= max_pos)
+			return (EBADMSG); /* Out of buf range: no end of name. */
 		label = (*((uint8_t*)cur_pos));
 		if ((label & SEQ_LABEL_CTRL_MASK) == SEQ_LABEL_CTRL_COMPRESSED) {
 			// SEQ_LABEL_CTRL_COMPRESSED означает что указанно смещение а не длинна
+			if (sizeof(uint16_t) > (size_t)(max_pos - cur_pos))
+				return (EBADMSG); /* Out of buf range: no low offset byte. */
 			memcpy(&tmu16, cur_pos, sizeof(uint16_t));
 			offset = (ntohs(tmu16) & SEQ_LABEL_COMPRESSED_DATA_MASK);
+			if (msg_size <= offset || sizeof(dns_hdr_t) > offset)
+				return (EBADMSG);// bad pointer
 			new_pos = (((uint8_t*)hdr) + offset);
-			if (msg_size < offset || sizeof(dns_hdr_t) > offset ||
-			    cur_pos == new_pos)
+			if (cur_pos == new_pos)
 				return (EBADMSG);// bad pointer
 			// pointer OK: in buf range, not pointed to self
 			cur_pos = new_pos;
@@ -1038,7 +1053,7 @@ dns_msg_sequence_of_labels2name(dns_hdr_p hdr, size_t msg_size, size_t offset,
 		label &= SEQ_LABEL_DATA_MASK;// now it contain len
 		cur_pos ++; // now it points to data
 
-		if ((cur_pos + label) > max_pos)
+		if (label > (size_t)(max_pos - cur_pos))
 			return (EBADMSG); /* Out of buf range. */
 		if (0 == label) { // null label = end of name, ALL DONE!!!
 			if (0 != name_len) {// clear last dot
@@ -1277,7 +1292,10 @@ dns_msg_rr_get_data(dns_hdr_p hdr, size_t msg_size, size_t offset, uint8_t *name
 
 	dns_rr = (dns_rr_p)((((size_t)hdr) + offset + name_size) - sizeof(uint8_t*));
 	rr_size_tm = (name_size + (sizeof(dns_rr_t) - (sizeof(uint8_t*) +
-	    sizeof(uint8_t))) + ntohs(dns_rr->rdlength));
+	    sizeof(uint8_t))));
+	if ((offset + rr_size_tm) > msg_size)
+		return (EBADMSG); /* Out of buf range: no room for rdlength. */
+	rr_size_tm += ntohs(dns_rr->rdlength);
 	if ((offset + rr_size_tm) > msg_size)
 		return (EBADMSG); /* Out of buf range. */
 
